@@ -496,7 +496,8 @@ func TestC11(t *testing.T) {
 	fixed := []Feat{
 		{Key: "source", Loc: lrg(0, 8), Quals: [][]string{{"label", "x0"}}},
 		{Key: "gene", Loc: ljn(lrg(1, 3), lrg(5, 7)), Quals: [][]string{{"label", "x1"}, {"note", "n"}}},
-		{Key: "CDS", Loc: lco(lrg(2, 6)), Quals: [][]string{{"label", "x2"}}},
+		{Key: "CDS", Loc: lco(lrg(2, 6)), Quals: [][]string{{"label", "x2"}, {"codon_start", "1"}, {"transl_table", "11"}}},
+		{Key: "CDS", Loc: lrg(1, 8), Quals: [][]string{{"label", "x4"}, {"codon_start", "2"}, {"translation", "MK"}}},
 		{Key: "variation", Loc: lpt(4), Quals: [][]string{{"label", "x3"}}},
 	}
 	guest := []Feat{{Key: "gene", Loc: lrg(0, 2), Quals: [][]string{{"label", "y0"}}}}
@@ -505,7 +506,7 @@ func TestC11(t *testing.T) {
 			for _, ts := range []bool{false, true} {
 				for _, carrier := range []string{"basic", "genbank", "fasta"} {
 					for _, sj := range []bool{false, true} {
-						for _, arg := range [][2]int{{0, 2}, {3, 2}, {8, 0}, {2, 7}} {
+						for _, arg := range [][2]int{{0, 2}, {3, 2}, {8, 0}, {2, 7}, {4, 2}} { // 4: inside the gap between the two parts of the join
 							op := c11Op{Op: name, I: arg[0], N: arg[1], S: "gene"}
 							if name == "finsert" && op.I >= 8 {
 								op.I = 7
